@@ -6,6 +6,7 @@ per-(writer, reader) obligations `compat <T>_w <T>_r = true` / `compatU <T>_assu
 by `translate/writers.py` into `Gen/WriteProgs.lean` on every run and discharged by `decide`.
 -/
 import FontVerif.Lemmas.FieldRT
+import FontVerif.Lemmas.FieldFlat
 import FontVerif.Gen.WriteProgs
 set_option linter.unusedVariables false
 
@@ -149,6 +150,34 @@ theorem enum_read_write (ext : Ext) (hw : Nat) (vs : List Variant) (v : Variant)
     rw [hb, List.append_assoc, take_be_append]
   rw [ht, beVal_be _ _ hlt, enumCompat_find hw vs v hc hv]
   simp only [hp]
+
+/-! ## array elements that are records with their own pair
+
+The array items of a table describe an element only by scalar widths (`WItem.array elem`, `WItem.arrayV pre tail`).
+When the element type is a generated record, the translator emits next to the table's pair the kernel-checked facts
+`wShape <R>_w = some (elem, none)` / `some (pre, some tail)` and `rFixed <R>_r = some elem` (`…_elem` in
+Gen/WriteProgs.lean); these two theorems are what the facts mean. -/
+
+/-- **The element a table writes is what the record's own `write_into` writes.**  For a record writer program with
+flat layout `sh`: whenever the record's program runs successfully, its bytes are the scalars it wrote (`emitVals`), in
+order, encoded with the widths `sh` gives them — for `sh = (elem, none)` that is `emitRec elem`, the element writer of
+`WItem.array elem`; for `sh = (pre, some tail)` it is `emitRec (wWidths pre tail n)`, the element writer of
+`WItem.arrayV pre tail`. -/
+theorem record_writes_flat_element (ext : Ext) (o : Obj) (ws : List WF) (view : View) (sh : FlatShape)
+    (bytes : Bytes) (view' : View)
+    (hs : wShape ws = some sh) (he : emit ext o ws view = some (bytes, view')) :
+    ∃ vals, emitVals ext o ws view = some vals ∧ emitRec (shapeWidths sh vals.length) vals = some bytes ∧
+      sh.1.length ≤ vals.length ∧ (sh.2 = none → vals.length = sh.1.length) :=
+  wShape_emit ext o ws view sh bytes view' hs he
+
+/-- **The element a table reads is what the fixed-size record's own reader reads**: field `i` of the record is scalar
+`i` of the element. -/
+theorem record_reads_flat_element (rs : List RF) (view : View) (bs : Bytes) (ws : List Nat) (h : rFixed rs = some ws) :
+    parse rs view bs =
+      match parseRec ws bs with
+      | none => none
+      | some (xs, rest) => some (pushNums (rs.map (·.id)) xs view, rest) :=
+  rFixed_parse rs view bs ws h
 
 /-! ## instances for generated pairs (the per-pair `compat` facts are in `Gen/WriteProgs.lean`) -/
 
